@@ -75,6 +75,7 @@ func counterKey(cc *ssa.CallCommon) (string, bool, bool) {
 func runC10(c *Ctx) {
 	defer c10RetryAbort(c)
 	defer c10RetrySlotReleasedBeforeAdmission(c)
+	defer freshStreamPerTry(c, "C10.PAIR")
 	defer c10CloseSetCrossCheck(c)
 	c.Rule("C10.POOL", "the pools' own connection counts (compared with max_connections) are taken exactly once per created connection and given back whenever none is handed out", 2)
 	defer c09Count(c, "C10.POOL")
